@@ -194,7 +194,7 @@ def count_paths(tu, g, events, ppath, signs0, truth_fn=None):
         return [(st[0], keep, st[2])] if keep else []
 
     res = g.explore([(0, frozenset(signs0), False)], transfer, refine)
-    return {st for st, via in res.exits}, seen
+    return {st for st, via in res.exits if not g.blocks[via].noret}, seen
 
 
 def signs_of_type(ct):
@@ -606,6 +606,201 @@ def readonly_param(tu, f, p, allow_omp=True):
     return None
 
 
+def cursor_dispatch(tu, f, call, args, fi, first, pn, pf, defs):
+    """The `worker` dispatch form: tbb::parallel_for(0, W, body) where every body instance repeatedly takes
+         begin = cursor.fetch_add(chunk)          (cursor: a std::atomic local of this call, initially 0)
+         if (!(begin < n)) stop
+         for i in [begin, min(begin + chunk, n)) : fcn(i)
+    The pieces handed out are disjoint multiples of chunk and every piece below n is taken by somebody as long as one body
+    runs: exactly-once holds iff chunk >= 1, W >= 1 and the cursor never leaves the range of its type.  Every body instance
+    performs one last fetch_add at or beyond n, so the cursor reaches n - 1 + W * chunk.
+    Returns None if the call is not of this shape at all; otherwise dict(und, problems, recognised, ok)."""
+    lamf, caps = callable_of(tu, args[fi])
+    if lamf is None or caps or tu.cfg(lamf) is None or len(lamf['params']) != 1:
+        return None
+    lg = tu.cfg(lamf)
+    ppath, fpath = param_path(pn), param_path(pf)
+    fetches = [n for b, i, n in lg.stmts() if n.get('kind') == 'CXXMemberCallExpr' and
+               tu.sd(n).get('q', '').split('::')[-1] in ('fetch_add', 'operator+=', 'operator++')]
+    if not fetches or not refs_inside(tu, lamf, pf['id']):
+        return None
+    out = dict(und=[], problems=[], recognised={call['id']}, ok='')
+    und, probs = out['und'], out['problems']
+    nct = clean_type(pn['ct'])
+    M = irange(nct)[1]
+    N = Lin.atom(('p', ppath))
+    if first != 0:
+        und.append('worker form: first index of the outer tbb::parallel_for is not 0')
+    # W >= 1
+    wdef = through_defs_simple(tu, args[1], defs)
+    wl = leaf(tu, wdef)
+    wq = tu.sd(wl).get('q', '') if wl is not None and wl.get('kind') in CALLS else ''
+    wv = const_value(tu, wdef)
+    if not (wq.endswith('max_concurrency') or (wv is not None and wv >= 1)):
+        und.append('worker form: cannot show that the number of worker bodies `%s` is at least 1' % tu.show(args[1]))
+    if len(fetches) != 1 or tu.sd(fetches[0]).get('q', '').split('::')[-1] != 'fetch_add':
+        und.append('worker form: the cursor is advanced by %d operations (expected one fetch_add)' % len(fetches))
+        return out
+    fa = fetches[0]
+    s_, cobj, cargs = tu.call_parts(fa)
+    cpath = access_path(tu, cobj) if cobj is not None else None
+    cvd = tu.node(cpath[1]) if cpath and len(cpath) == 3 else None
+    if cvd is None or cvd.get('kind') != 'VarDecl' or tu.enclosing_fn(cvd) is None or cvd.get('storageClass') == 'static':
+        und.append('worker form: the cursor `%s` is not an automatic variable of the dispatching call' % tu.show(cobj))
+        return out
+    cty = (cvd.get('type') or {}).get('qualType', '')
+    cct = clean_type(tu.sd(cobj).get('ct')) or cty
+    m = re.match(r'^(?:std::)?(?:__)?atomic(?:_base)?<(.*)>$', cct)
+    T = clean_type(m.group(1)) if m else None
+    if T is None or irange(T) is None:
+        und.append('worker form: the cursor has type %s, not std::atomic<integer>' % cct)
+        return out
+    civ = tu.kids(cvd)
+    c0 = const_value(tu, tu.kids(leaf(tu, civ[0]))[0]) if civ and leaf(tu, civ[0]) is not None and tu.kids(leaf(tu, civ[0])) else \
+        (const_value(tu, civ[0]) if civ else None)
+    if c0 != 0:
+        probs.append(('tbb-cursor-start', 'the shared cursor starts at %s instead of 0' % c0, cvd)) if c0 is not None else \
+            und.append('worker form: initial value of the cursor is not a constant')
+    other = [r for r in refs_to(tu, f, cpath[1]) if not any(x.get('id') == fa['id'] for x in ancestors(tu, r, 6)) and
+             (tu.par(r) or {}).get('kind') != 'LambdaExpr']
+    if other:
+        und.append('worker form: the cursor is used other than by the fetch_add at %s' % tu.loc(other[0]))
+    # begin = fetch_add(chunk)
+    par = tu.par(fa)
+    while par is not None and par.get('kind') in ('ImplicitCastExpr', 'ExprWithCleanups', 'ParenExpr'):
+        par = tu.par(par)
+    if par is None or par.get('kind') != 'VarDecl':
+        und.append('worker form: the value returned by fetch_add is not stored in a local')
+        return out
+    bpath = ('v', par['id'], par.get('name'))
+    ldefs = local_defs(tu, [lamf])
+    alldefs = dict(defs)
+    alldefs.update(ldefs)
+    lenv = make_env(tu, ldefs)          # locals of the body (begin -> the fetch_add value, end -> its initialiser)
+    fenv = make_env(tu, alldefs)
+    BEG = lin(tu, {'kind': 'DeclRefExpr', 'id': None, 'referencedDecl': {'id': par['id'], 'name': par.get('name')}}, lenv) \
+        if False else Lin.atom(('opaque', tu.show(fa)))
+    if bpath not in ldefs:
+        und.append('worker form: `%s` is modified after the fetch_add' % bpath[2])
+        return out
+    BEG = lin(tu, ldefs[bpath], lenv)
+    CHK_body = lin(tu, cargs[0], lenv) if cargs else None
+    CHK_full = lin(tu, cargs[0], fenv) if cargs else None
+    ca = CHK_full.single_atom() if CHK_full is not None else None
+    chunk_pos = CHK_full is not None and ((CHK_full.is_const() and CHK_full.c >= 1) or
+                                          (ca is not None and ca[0] == 'max' and any(m_.is_const() and m_.c >= 1 for m_ in ca[1])))
+    if not chunk_pos:
+        if CHK_full is not None and CHK_full.is_const():
+            probs.append(('tbb-cursor-chunk', 'the cursor is advanced by %d: the same piece is handed out again and again' % CHK_full.c, fa))
+        else:
+            und.append('worker form: cannot show that the chunk `%s` is at least 1' % (tu.show(cargs[0]) if cargs else '?'))
+    # loops of the body: an endless outer loop, one inner counting loop
+    heads = sorted({t for s2, t in lg.back_edges()})
+    if len(heads) != 2:
+        und.append('worker form: the body has %d loops (expected the endless take-a-chunk loop and one counting loop)' % len(heads))
+        return out
+    L = {h: natural_loop(lg, h) for h in heads}
+    outer = [h for h in heads if all(h2 in L[h] for h2 in heads)]
+    if len(outer) != 1:
+        und.append('worker form: the loops of the body are not nested')
+        return out
+    H0 = outer[0]
+    H1 = [h for h in heads if h != H0][0]
+    fpos = lg.where(fa['id'])
+    if fpos is None or fpos[0] not in L[H0] or fpos[0] in L[H1]:
+        und.append('worker form: the fetch_add is not executed once per round of the outer loop')
+        return out
+    # the stop test
+    want = cmp_atom('<', BEG, N)
+    stop_blk = cont = None
+    for bid in L[H0] - L[H1]:
+        blk = lg.blocks[bid]
+        if blk.cond is None or len(blk.succ) != 2 or blk.succ[0] is None or blk.succ[1] is None:
+            continue
+        a = bool_atom(tu, tu.node(blk.cond), lenv)
+        if a is None:
+            continue
+        if a == want:
+            stop_blk, cont, leave = blk, blk.succ[0], blk.succ[1]
+        elif a == negate_cmp(want):
+            stop_blk, cont, leave = blk, blk.succ[1], blk.succ[0]
+        elif set(a[2].t) == set((BEG - N).t) and BEG.single_atom() in a[2].t:
+            probs.append(('tbb-cursor-stop', 'a worker stops taking chunks under `%s`, not exactly when its chunk starts at or beyond the '
+                          'count' % tu.show(tu.node(blk.cond)), tu.node(blk.cond)))
+            stop_blk = blk
+            cont = leave = None
+    if stop_blk is None:
+        und.append('worker form: no test of the fetched start against the count `%s` found' % pn['name'])
+        return out
+    if cont is not None:
+        dom = lg.dominators()
+        if not lg.dominates(fpos, (stop_blk.id, 0)) and fpos[0] != stop_blk.id:
+            und.append('worker form: the stop test does not follow the fetch_add')
+        if cont not in dom.get(H1, ()) and cont != H1:
+            und.append('worker form: the counting loop is not guarded by the stop test')
+        # leaving: must leave the outer loop
+        seen_, work = set(), [leave]
+        while work:
+            x = work.pop()
+            if x in seen_ or x is None:
+                continue
+            seen_.add(x)
+            work += [y for y in lg.blocks[x].succ if y is not None]
+        if H0 in seen_:
+            und.append('worker form: the stop branch does not leave the take-a-chunk loop')
+    # the inner counting loop
+    CHKb = CHK_body
+    END = Lin.atom(('min', frozenset((BEG + CHKb, N)))) if CHKb is not None else None
+    li = analyse_counting_loop(tu, lamf, lg, {fpath}, BEG, END, head=H1) if END is not None else None
+    if li is None:
+        und.append('worker form: counting loop not analysable')
+        return out
+    und += ['worker form: ' + u for u in li.undecided]
+    for k_, t_, n_ in ([] if li.undecided else li.problems):
+        probs.append(('tbb-cursor-' + k_, t_, n_))
+    for c_ in li.calls:
+        out['recognised'].add(c_['id'])
+    # ---- the cursor must be able to hold n - 1 + W * chunk for every n of the index type
+    tr = irange(T)
+    bits = lambda r: (r[1] + 1).bit_length() if r[0] == 0 else (r[1] + 1).bit_length() + 1
+    safe = bits(tr) >= 64 and bits(irange(nct)) <= 32
+    if not safe and not und:
+        ex = 'e.g. %s n = %d with 2 workers and chunk 1: one worker fetches %d and stops, the other fetches %s' % (
+            nct, M, M, '0 again: the whole range is handed out a second time' if irange(T)[0] == 0 else
+            '%d: the function is invoked for negative indices' % irange(T)[0]) if tr[1] <= M else \
+            'the final fetch_add of each of the W workers moves the cursor to n - 1 + W * chunk'
+        probs.append(('tbb-cursor-wraps',
+                      'every worker body performs one final `%s` at or beyond the count, so the shared cursor (std::atomic<%s>) reaches '
+                      'n - 1 + W * chunk, which exceeds the maximum %d of its type for counts near the maximum of %s: the cursor wraps '
+                      'below the count and chunks are handed out again (%s)' % (tu.show(fa), T, tr[1], nct, ex), fa))
+    out['ok'] = 'worker form: disjoint chunks [k*chunk, min((k+1)*chunk, n)) taken from a std::atomic<%s> cursor; chunk >= 1; ' \
+                'cursor cannot wrap' % T
+    return out
+
+
+def ancestors(tu, n, k):
+    out = []
+    x = n
+    for _ in range(k):
+        x = tu.par(x)
+        if x is None:
+            break
+        out.append(x)
+    return out
+
+
+def through_defs_simple(tu, e, defs):
+    hops = 0
+    while hops < 4:
+        p_ = access_path(tu, e)
+        if p_ in defs:
+            e = defs[p_]
+            hops += 1
+        else:
+            break
+    return e
+
+
 def functor_uses(tu, f, fparam, recognised):
     """uses of the functor parameter that are not part of a recognised dispatch: list of locations"""
     bad = []
@@ -613,7 +808,7 @@ def functor_uses(tu, f, fparam, recognised):
         n = r
         okuse = False
         hops = 0
-        while n is not None and hops < 8:
+        while n is not None and hops < 60:
             if n.get('id') in recognised:
                 okuse = True
                 break
@@ -678,6 +873,15 @@ def omp_join(tu, g, anc):
 
 
 _IMPL_DONE = {}
+
+
+def omp_loop_head(tu, f, li):
+    """is the loop the associated loop of an OpenMP loop directive (its bound is evaluated once, before the region)?"""
+    for n in fn_stmts(tu, f):
+        if n.get('kind', '').startswith('OMP') and n.get('kind', '').endswith('Directive'):
+            if li.header is not None and any(x.get('id') == li.header.term for x in tu.walk(n)):
+                return True
+    return False
 
 
 def check_impl(ctx, tu, f, cfgname, chains, depth=0):
@@ -751,6 +955,18 @@ def check_impl(ctx, tu, f, cfgname, chains, depth=0):
                 if const_value(tu, args[2]) != 1:
                     problems.append(('tbb-step', 'tbb::parallel_for is called with step `%s` instead of 1' % tu.show(args[2]), n))
             first = const_value(tu, through_defs(args[0]))
+            if len(args) > fi and obj_path(tu, args[fi]) != fpath:
+                # not the functor itself: a worker body that pulls chunks of the range off a shared cursor?
+                cd = cursor_dispatch(tu, f, n, args, fi, first, pn, pf, defs)
+                if cd is not None:
+                    kinds.add('cursor')
+                    und += cd['und']
+                    for k_, t_, n_ in cd['problems']:
+                        problems.append((k_, t_, n_))
+                    recognised |= cd['recognised']
+                    if not cd['und'] and not cd['problems']:
+                        ctx.ok(R1, inst + ' worker body', cd['ok'], tu.loc(n))
+                    continue
             if first is None:
                 und.append('first index `%s` of tbb::parallel_for is not a constant' % tu.show(args[0]))
             elif first != 0:
@@ -828,6 +1044,10 @@ def check_impl(ctx, tu, f, cfgname, chains, depth=0):
     loops = analyse_counting_loops(tu, f, g, {fpath}, Lin.const(0), Lin.atom(('p', ppath)))
     for li in loops:
         kinds.add('loop')
+        if is_reference_param(pn) and li.header is not None and not omp_loop_head(tu, f, li):
+            problems.append(('count-by-reference', 'the count is a reference parameter (`%s %s`) and the loop condition re-reads it in '
+                             'every iteration: it is the caller\'s object, the user function can change it while the loop runs'
+                             % (pn['ct'], pn['name']), tu.node(li.header.cond) if li.header.cond else None))
         und += li.undecided
         for k, t, n in ([] if li.undecided else li.problems):
             problems.append(('loop-' + k, t, n))
@@ -866,7 +1086,7 @@ def check_impl(ctx, tu, f, cfgname, chains, depth=0):
             name = tu.sd(d).get('directive', d['kind'])
             if d['id'] not in used and name not in ('taskwait', 'barrier', 'taskgroup', 'taskyield', 'flush'):
                 und.append('OpenMP directive `%s` is not attached to a recognised counting loop' % name)
-    if not kinds & {'tbb', 'internal', 'loop', 'helper'}:
+    if not kinds & {'tbb', 'internal', 'loop', 'helper', 'cursor'}:
         if functor_uses(tu, f, pf, recognised):
             ctx.undecided(R1, inst, 'no recognised backend dispatch; the functor is handed to something that is not understood', loc)
         else:
@@ -1218,6 +1438,8 @@ def sym_paths(tu, g, start, stops, st0, on_call=None, limit=256):
         if bid in onpath:
             raise ValueError('cycle')
         blk = g.blocks[bid]
+        if blk.noret:
+            continue           # ends in a noreturn call (failed assert / abort / throw): control never comes back
         st = st.clone()
         handled = set()
         for e in blk.el:
@@ -1412,7 +1634,7 @@ def task_fn_summaries(tu):
             return [st]
         try:
             res = g.explore([()], transfer, None)
-            memo[key_] = {st for st, via in res.exits} or {()}
+            memo[key_] = {st for st, via in res.exits if not g.blocks[via].noret} or {()}
         except RuntimeError:
             memo[key_] = {('?',)}
         return memo[key_]
@@ -2045,8 +2267,9 @@ def check_wait_for_task(ctx, tu):
         return [(st[0], st[1] or zero)]
 
     res = g.explore([('?', False)], transfer, refine)
-    bad = [st for st, via in res.exits if st[0] in ('V', '?') and not st[1]]
-    sawzero = any(st[1] for st, via in res.exits)
+    live_exits = [(st, via) for st, via in res.exits if not g.blocks[via].noret]
+    bad = [st for st, via in live_exits if st[0] in ('V', '?') and not st[1]]
+    sawzero = any(st[1] for st, via in live_exits)
     unclassified = []
     for blk in g.blocks.values():
         if blk.cond is not None and len(blk.succ) == 2 and classify(tu.node(blk.cond)) is None:
@@ -2732,7 +2955,7 @@ class AcqFlow:
                 return [st] if (v == 'T') == truth else []
             return [st]
         res = g.explore([('F', 0, 0, None)], transfer, refine)
-        return {st[:3] for st, via in res.exits}, returns
+        return {st[:3] for st, via in res.exits if not g.blocks[via].noret}, returns
 
 
 _ACQ_HELPERS = {}
@@ -3317,6 +3540,13 @@ class Ival:
         rr = dict(ranges)
         for p in list(rr):
             tr = sign_truth(tu, cond, p)
+            if tr is None:
+                # the condition may speak about a local that is a plain copy of p
+                for q_, e_ in self.defs.items():
+                    if q_ not in rr and lin(tu, e_, self.env) == Lin.atom(('p', p)):
+                        tr = sign_truth(tu, cond, q_)
+                        if tr is not None:
+                            break
             if tr is None or rr[p] is None:
                 continue
             lo, hi = rr[p]
@@ -3330,6 +3560,28 @@ class Ival:
             if not segs:
                 return None, None
             rr[p] = (min(s_[0] for s_ in segs), max(s_[1] for s_ in segs))
+        # a comparison whose operand intervals already decide it makes the other branch dead (its code is never evaluated)
+        c_, pos_ = strip_not(tu, cond)
+        if c_ is not None and c_.get('kind') == 'BinaryOperator' and c_.get('opcode') in ('<', '<=', '>', '>=', '==', '!='):
+            nw, nu = len(self.wraps), len(self.unknown)
+            a_, b_ = self.ev(tu.kids(c_)[0], rr), self.ev(tu.kids(c_)[1], rr)
+            clean = len(self.unknown) == nu
+            del self.wraps[nw:]
+            del self.unknown[nu:]
+            if a_ is not None and b_ is not None and clean:
+                op = c_['opcode']
+                if op in ('>', '>='):
+                    a_, b_ = b_, a_
+                    op = '<' if op == '>' else '<='
+                if op == '<':
+                    t_ = {True} if a_[1] < b_[0] else {False} if a_[0] >= b_[1] else {True, False}
+                elif op == '<=':
+                    t_ = {True} if a_[1] <= b_[0] else {False} if a_[0] > b_[1] else {True, False}
+                else:
+                    eq_ = {True} if a_[0] == a_[1] == b_[0] == b_[1] else {False} if (a_[1] < b_[0] or b_[1] < a_[0]) else {True, False}
+                    t_ = eq_ if op == '==' else {not x for x in eq_}
+                if (want == pos_) not in t_:
+                    return None, None
         ca = bool_atom(tu, cond, self.env)
         if ca is not None and not want:
             ca = negate_cmp(ca)
@@ -3411,7 +3663,8 @@ class Ival:
         k = n.get('kind')
         ks = tu.kids(n)
         cv = tu.sd(n).get('cv')
-        if cv is not None and k not in ('DeclRefExpr', 'MemberExpr'):
+        is_cast = k in ('ImplicitCastExpr', 'CStyleCastExpr', 'CXXStaticCastExpr', 'CXXFunctionalCastExpr')
+        if cv is not None and k not in ('DeclRefExpr', 'MemberExpr') and not (is_cast and ks and irange(tu.sd(n).get('ct')) is not None):
             try:
                 return (int(cv), int(cv))
             except ValueError:
@@ -3450,7 +3703,18 @@ class Ival:
                 for x in ks:
                     self.ev(x, ranges)
                 return (0, 1)
-            a, b = self.ev(ks[0], ranges), self.ev(ks[1], ranges)
+            w0 = len(self.wraps)
+            a = self.ev(ks[0], ranges)
+            w1 = len(self.wraps)
+            b = self.ev(ks[1], ranges)
+            w2 = len(self.wraps)
+            if op == '*' and a is not None and b is not None:
+                conv = ('CStyleCastExpr', 'CXXStaticCastExpr', 'CXXFunctionalCastExpr', 'ImplicitCastExpr')
+                if a == (0, 0):      # 0 * x: conversions inside x that lose value cannot change the product
+                    self.wraps[w1:w2] = [w_ for w_ in self.wraps[w1:w2] if w_[0].get('kind') not in conv]
+                    w2 = len(self.wraps)
+                if b == (0, 0):
+                    self.wraps[w0:w1] = [w_ for w_ in self.wraps[w0:w1] if w_[0].get('kind') not in conv]
             if a is None or b is None:
                 return None
             if op == '+':
@@ -3656,6 +3920,17 @@ def callable_of(tu, e):
     return ops[0], caps
 
 
+def is_reference_param(p):
+    return (p.get('ct') or '').rstrip().endswith('&')
+
+
+def refs_inside(tu, fn, declid):
+    """references to a declaration inside the body of fn (a lambda's operator() / a function object's operator())"""
+    b = tu.body(fn)
+    return [n for n in (tu.walk(b) if b is not None else []) if n.get('kind') == 'DeclRefExpr' and
+            n.get('referencedDecl', {}).get('id') == declid]
+
+
 def check_blocks(ctx, tu, cfgname):
     R = 'R-C01-4'
     n_inst = 0
@@ -3701,6 +3976,15 @@ def check_blocks(ctx, tu, cfgname):
         defs = local_defs(tu, [f, lamf])
         env = make_env(tu, defs)
         und = []
+        # the blocks must be cut against the count the function was called with: the per-block body runs while the user's
+        # code runs, so it may only read a private copy of the count (by-value parameter or a local), never the caller's object
+        shared_reads = refs_inside(tu, lamf, pn['id']) if is_reference_param(pn) else []
+        if shared_reads:
+            ctx.violation(R, inst, 'the count is a reference parameter (`%s %s`) and the per-block body re-reads it at %s while the '
+                          'loop is running: it is the caller\'s object, so when the user function (or anything it triggers) changes '
+                          'that variable, later blocks are cut against the new value - blocks run past the original n or indices are '
+                          'never run. Take the count by value or copy it before the loop'
+                          % (pn['ct'], pn['name'], tu.loc(shared_reads[0])), loc, key=key('count-by-reference'))
 
         def truth_fn(cond):
             """truth of a comparison per sign of n, by interval evaluation (locals and helpers followed)"""
@@ -3831,6 +4115,14 @@ def check_blocks(ctx, tu, cfgname):
                     if wn['id'] in seenw:
                         continue
                     seenw.add(wn['id'])
+                    if wiv[0] == wiv[1] and wn.get('kind') in ('CStyleCastExpr', 'CXXStaticCastExpr', 'CXXFunctionalCastExpr',
+                                                                 'ImplicitCastExpr') and const_value(tu, tu.kids(wn)[-1]) is not None:
+                        bad.append(('block-size-truncated',
+                                    'the block size %d is converted to the index type by `%s`, but %s only holds values up to %d: the '
+                                    'conversion yields %s, so block begin / end are computed with a wrong block size (for BLOCK_SIZE == '
+                                    'max+1 it is 0: every block is [0, 0) and no index is ever run)'
+                                    % (wiv[0], '(%s)%s' % (wt, show(tu, tu.kids(wn)[-1])), wt, irange(wt)[1], tu.sd(wn).get('cv', '?'))))
+                        continue
                     bad.append(('end-wrap', 'in the last block `%s` can reach %d, beyond the range of its type %s (for n within %d of the '
                                 'maximum): the block end wraps below its begin (unsigned) or overflows (signed) and the last indices are never run'
                                 % (show(tu, wn), wiv[1], wt, B)))
@@ -4237,6 +4529,71 @@ def run_witnesses(ctx, configs, compiler='clang++'):
 # =====================================================================================================
 #  run
 # =====================================================================================================
+def check_layout_configs(ctx, tu_a, tu_b, name_a, name_b):
+    """The internal backend constructs its task set in header code (application translation unit) and the scheduler in
+    librkcommon reads it: every enkiTS record must have one layout whatever NDEBUG says on either side."""
+    R = 'R-C01-7'
+    ctx.describe(R, 'enkiTS records that cross the header / library boundary (ICompletable, ITaskSet, TaskSetPartition, ...) have the '
+                    'same size and member offsets with and without NDEBUG')
+    n = 0
+    ra = {r['q']: r for r in tu_a.records.values() if r['q'].startswith('enki::') and not r.get('lambda') and not r.get('tmpl')}
+    rb = {r['q']: r for r in tu_b.records.values() if r['q'].startswith('enki::') and not r.get('lambda') and not r.get('tmpl')}
+    for q in sorted(set(ra) | set(rb)):
+        a, b = ra.get(q), rb.get(q)
+        short = q.replace('enki::', '')
+        if a is None or b is None:
+            continue
+        n += 1
+        fa = [(f_['name'], f_['ct'], f_['off']) for f_ in a['fields']]
+        fb = [(f_['name'], f_['ct'], f_['off']) for f_ in b['fields']]
+        if fa == fb and a['size'] == b['size'] and a['align'] == b['align'] and a.get('bases') == b.get('bases'):
+            ctx.ok(R, 'enki::%s' % short, 'size %d, %d member(s): identical %s / %s' % (a['size'], len(fa), name_a, name_b),
+                   nontrivial=bool(fa))
+            continue
+        only_a = [x[0] for x in fa if x[0] not in {y[0] for y in fb}]
+        only_b = [x[0] for x in fb if x[0] not in {y[0] for y in fa}]
+        moved = [x[0] for x in fa for y in fb if x[0] == y[0] and x[2] != y[2]]
+        file = F_ENKI_H
+        ctx.violation(R, 'enki::%s' % short,
+                      'the layout depends on the build configuration: size %d (%s) vs %d (%s)%s%s%s. Task sets are constructed by '
+                      'header code in the application and read by the scheduler in the library; when the two are compiled with '
+                      'different NDEBUG settings the scheduler reads m_SetSize / m_RunningCount at the wrong offset and '
+                      'parallel_for runs nothing (or the wrong number of indices)'
+                      % (a['size'], name_a, b['size'], name_b,
+                         ('; member(s) only %s: %s' % (name_a, ', '.join(only_a))) if only_a else '',
+                         ('; member(s) only %s: %s' % (name_b, ', '.join(only_b))) if only_b else '',
+                         ('; moved: %s' % ', '.join(moved)) if moved else ''), file,
+                      key='%s|%s|%s|layout-depends-on-NDEBUG' % (R, file, short))
+    ctx.floor(R, n, 3, 'ICompletable, ITaskSet, TaskSetPartition')
+
+
+ENABLE_BIG_BLOCKS = True      # switched on once /repo handles block sizes the index type cannot hold (see W-C01-5)
+
+
+def check_big_blocks(ctx):
+    """block sizes above the index type's maximum: rejected at compile time, or analysed like any other instantiation"""
+    W = 'W-C01-5'
+    ctx.describe(W, 'parallel_in_blocks_of with a BLOCK_SIZE the index type cannot represent is either rejected by a static_assert or '
+                    'partitions [0, n) exactly (decided by R-C01-4 on the instantiation)')
+    n = 0
+    for case, what in ((1, '<256, unsigned char>'), (2, '<32768, short>'), (3, '<40000, short>')):
+        rc, err = ctx.front.compile_check('witness/c01_bigblock.cpp', config='DEBUG', extra=('-DC01_BIG=%d' % case,))
+        inst = 'parallel_in_blocks_of%s' % what
+        n += 1
+        if rc != 0:
+            if static_assert_errors(ctx, err):
+                ctx.ok(W, inst, 'rejected by a static_assert')
+            else:
+                ctx.undecided(W, inst, 'does not compile, but not because of a static_assert: %s' % first_error(err), F_PFOR)
+            continue
+        tu = ctx.front.parse('witness/c01_bigblock.cpp', 'DEBUG', extra=('-DC01_BIG=%d' % case,))
+        before = len(ctx.obl)
+        k = check_blocks(ctx, tu, 'DEBUG/big')
+        if k < 1:
+            ctx.broken('W-C01-5: instantiation %s not found in witness/c01_bigblock.cpp' % what)
+    ctx.floor(W, n, 3, 'three over-large block sizes')
+
+
 def describe(ctx):
     ctx.describe('R-C01-1', 'dispatch: on every path with a positive count the backend primitive receives [0, count) and the functor '
                             'exactly once (tbb::parallel_for(0, n, f) | canonical counting loop | parallel_for_internal(n, f) -> task set of '
@@ -4268,9 +4625,13 @@ def run(ctx):
         jobs.append(dict(unit=DRIVER, config=c, extra=extra))
     jobs.append(dict(unit=F_ENKI, config='INTERNAL'))
     jobs.append(dict(unit=F_TASKSYS, config='INTERNAL'))
+    jobs.append(dict(unit=F_TASKSYS, config='INTERNAL', extra=('-DNDEBUG',)))
     tus = ctx.front.parse_many(jobs)
     drv = dict(zip(configs, tus[:len(configs)]))
-    tu_enki, tu_sys = tus[len(configs)], tus[len(configs) + 1]
+    tu_enki, tu_sys, tu_sys_ndebug = tus[len(configs)], tus[len(configs) + 1], tus[len(configs) + 2]
+    check_layout_configs(ctx, tu_sys, tu_sys_ndebug, 'without NDEBUG', 'with NDEBUG')
+    if ENABLE_BIG_BLOCKS or os.environ.get('RKVERIF_C01_BIG_BLOCKS'):
+        check_big_blocks(ctx)
 
     summaries = task_fn_summaries(tu_sys)
     n_impl = {}
